@@ -10,6 +10,16 @@ NOT_APPLICABLE = {
 for k in ['C01','C02','C03','C04','C05','C06','C07','C10','C11','C12','C13','C14','C15','C16','C17','C18','C19','C20']:
     NOT_APPLICABLE.setdefault(k, UNDER)
 CHECKS = {
+ 'C05': {
+  'text': 'Verus proves the item-store contracts of the real Writer/Reader functions (add_item, append_item, del_item, clear, contains_item, item_vector, iter, is_empty, ItemIter::next, item_leaf) over an abstract database view Map<(index,kind,id),value>: add writes exactly the leaf new_leaf(v) and the mark; del_item returns whether the key existed and removes exactly it; clear leaves no key of the index; item_vector / iteration return the decoded stored vector cut to the declared dimension, iteration in ascending id order, each key once; emptiness agrees with the key set. Presence at every point of a history is then induction over these per-operation postconditions.',
+  'note': 'Vector codec enc/dec is uninterpreted here (bit-exactness of the f32 codec and sign pattern of the quantised codec are the Kani units of C12/C16); build-does-not-touch-items is part of the build chain units; representation invariant items_are_leaves is used by is_empty.',
+  'technique': 'Verus postconditions + loop invariants on extracted real functions; Kani on the real key codec',
+ },
+ 'C06': {
+  'text': 'Verus proves on the real code: need_build returns exactly stale(view) = (an Updated key exists or no metadata); Reader::open returns Ok only if metadata exists, its metric name equals D::name() and no Updated key exists, and otherwise one of three distinct errors (MissingMetadata / UnmatchingDistance / NeedBuild) each characterised exactly; add_item, append_item and a successful del_item create the mark, rejected calls and del_item of an absent id leave the view unchanged; clear removes the metadata.',
+  'note': 'Persistence of a mark across committed transactions is LMDB (trusted). A cursor read error inside need_build/open is reported as stale (read_faulty disjunct). The build ok-path (no mark left, metadata written) is part of the build chain units.',
+  'technique': 'Verus postconditions on extracted real functions',
+ },
  'C19': {
   'text': 'Verus proves, for all inputs and database states, the postconditions of the real add_item / append_item / del_item (extracted from /repo each run): wrong length => Err(InvalidVecDimension{expected,received}) and the abstract database view is unchanged; append => Err(InvalidItemAppend) iff some key of the whole database is not smaller than the new key, and then nothing changes, else the same post-state as add_item; del_item of an absent id => Ok(false), view unchanged. Kani proves on the real KeyCodec that byte order of keys is (index, kind, id) order, which is what links the MDB_APPEND rule to the abstract order.',
   'note': 'LMDB/heed semantics (incl. MDB_APPEND) are assumed stand-in contracts; by_vector length check is decided by the reader unit once built; unchanged view = no updated mark = not stale (C06).',
